@@ -1,7 +1,8 @@
 import BdModel.Sched.Defs
 import BdModel.Proofs.Sched.OutcomeInv
+import BdModel.Proofs.Sched.OutcomeFin
 /- helper lemmas + main proofs for C04 and C05
-   (frame lemmas: OutcomeBase.lean, inductive invariants: OutcomeInv.lean) -/
+   (frame lemmas: OutcomeBase.lean, inductive invariants: OutcomeInv.lean, OutcomeFin.lean) -/
 namespace BdModel.Sched
 
 /-- the handler log is always a prefix of the plan computed after `wg.Wait()`; at return it is the plan -/
@@ -105,6 +106,26 @@ theorem no_new_start_after_cancel (c : Cfg) (s s' : State) (hc : s.canceled = tr
     | step a _ hs ih => exact cancel_step hs i _ _ ih
   exact key.2.1
 
+/-- a worker that is executing a command has an executor (non-dry) -/
+theorem exec_has_cmd (c : Cfg) (hd : c.dry = false) (s : State) (hr : Reach c s) (i : Nat)
+    (h : (s.nd i).pc = .exec) : (s.nd i).cmd = true :=
+  invK hd hr i h
+
+-- `hn` is not needed by the proof (the statement is kept as given)
+set_option linter.unusedVariables false in
+/-- a step that is reported finished has executed its command (no "finished" without execution),
+    also in stopped runs -/
+theorem success_executed (c : Cfg) (hn : NoRep c) (hd : c.dry = false) (s : State) (hr : Reach c s) (i : Nat)
+    (h : (s.nd i).status = .success) : (s.nd i).execs ≥ 1 :=
+  (invS hd hr i).2 h
+
+/-- after a stop no step is left in state running once its worker is gone: every worker that is gone
+    or only has its deferred part left has a non-running status -/
+theorem no_running_when_gone (c : Cfg) (hn : NoRep c) (s : State) (hr : Reach c s) (i : Nat)
+    (hp : (s.nd i).pc = .idle ∨ (s.nd i).pc = .gone ∨ (s.nd i).pc = .deferred ∨ (s.nd i).pc = .td) :
+    (s.nd i).status ≠ .running :=
+  invD hn hr i hp
+
 end BdModel.Sched
 
 #print axioms BdModel.Sched.hlog_plan
@@ -112,3 +133,6 @@ end BdModel.Sched
 #print axioms BdModel.Sched.error_implies_lastErr
 #print axioms BdModel.Sched.outcome_unstopped
 #print axioms BdModel.Sched.no_new_start_after_cancel
+#print axioms BdModel.Sched.exec_has_cmd
+#print axioms BdModel.Sched.success_executed
+#print axioms BdModel.Sched.no_running_when_gone
